@@ -33,7 +33,7 @@ OWNED = ('tri.', 'reuse')
 #  GenValid, PathSimple, PickOK and RefValid)
 QUICK = ['S45r0', 'S45r1', 'S45r2', 'S45r3', 'S37', 'Z2', 'ZH', 'D', 'H1', 'H2', 'N', 'M', 'C', 'X']
 THOROUGH = ['S46r0', 'S46r1', 'S46r2', 'S46r3', 'S55r0', 'S55r1', 'S55r2', 'S55r3', 'S55r4', 'S38', 'S54', 'Z3', 'ZH', 'D',
-            'H1big', 'Nbig', 'Mbig', 'Cbig', 'Xbig', 'H1', 'H2', 'M']
+            'H1big', 'H2big', 'Nbig', 'Mbig', 'Cbig', 'Xbig', 'H1', 'H2', 'M', 'N', 'C']
 
 
 # ------------------------------------------------------------------ exact helpers (Python ints)
